@@ -112,6 +112,7 @@ type PacketConn struct {
 	// InboxCap bounds the inbox (0 = unbounded); excess packets are dropped like UDP.
 	InboxCap int
 	Dropped  int
+	CloseErr error // returned by the Close that closes the socket
 }
 
 func NewPacketConn(name string, port int) *PacketConn {
@@ -196,7 +197,9 @@ func (c *PacketConn) Close() error {
 		return net.ErrClosed
 	}
 	c.closed = true
-	return nil
+	// CloseErr: the socket is released (as close(2) releases the descriptor even when it reports
+	// EIO or EINTR) and the error is returned
+	return c.CloseErr
 }
 
 func (c *PacketConn) Closed() bool        { return c.closed }
